@@ -1253,6 +1253,17 @@ def run_xlsx_files(ctx, n):
                     fa = rng.choice(["", "", "", ' aca="1"', ' xml:space="preserve"', ' ca="1"', ' t="normal"', ' t="array" ref="%s"' % fg.a1(r, c),
                                      ' t="shared" ref="%s" si="%d"' % (fg.a1(r, c), 40 + len(cells))])
                     cells[(r, c)] = {"f": t, "fa": fa, "v": v, "exp": t}
+            if rng.random() < 0.4:
+                # a dense row starting in column A written WITHOUT r attributes: the position of a
+                # formula cell then depends on the reader counting the value-only cells before it
+                dr_ = br + 26
+                for c in range(rng.randrange(2, 7)):
+                    if rng.random() < 0.5:
+                        cells[(dr_, c)] = {"f": None, "v": ("n", str(c + 1)), "imp": True}
+                    else:
+                        t = _stored_text(rng, XLSX_TEXTS)
+                        cells[(dr_, c)] = {"f": t, "fa": "", "v": rng.choice([None, ("n", "4")]), "exp": t, "imp": True}
+                ctx.count("xlsx:file:dense_implicit_row")
             if br < 1000 and bc < 1000 and rng.random() < 0.35:
                 # a shared group: the master carries the text, the members only t/si
                 toks = _shared_tokens(rng)
